@@ -53,14 +53,18 @@ StrFrom(s, j, acc) == IF j > Len(s) THEN Fail("Missing closing quote")
                       ELSE StrFrom(s, j + 1, Append(acc, s[j]))
 NextParam(s, i) == IF s[i] = 34 THEN StrFrom(s, i + 1, <<>>)
                    ELSE IF ~UnqChar(s[i]) THEN Fail("Invalid unquoted character") ELSE UnqFrom(s, i, i + 1)
-RECURSIVE Params(_, _, _)
-Params(s, i, acc) == IF i > Len(s) THEN [ok |-> TRUE, args |-> acc, why |-> ""]
-                     ELSE IF Len(acc) >= 15 THEN [ok |-> FALSE, args |-> acc, why |-> "Too many arguments"]
+RECURSIVE Params(_, _, _, _)
+Params(s, i, acc, max) == IF i > Len(s) THEN [ok |-> TRUE, args |-> acc, why |-> ""]
+                     ELSE IF Len(acc) >= max THEN [ok |-> FALSE, args |-> acc, why |-> "Too many arguments"]
                      ELSE LET p == NextParam(s, i) IN
-                          IF p.ok THEN Params(s, p.next, Append(acc, p.tok)) ELSE [ok |-> FALSE, args |-> acc, why |-> p.why]
-Tokenize(line) == LET s == Eff(line) IN
+                          IF p.ok THEN Params(s, p.next, Append(acc, p.tok), max) ELSE [ok |-> FALSE, args |-> acc, why |-> p.why]
+\* max: MPD's limit is 15 arguments after the name (COMMAND_ARGV_MAX 16).  A request with more is refused by the server whatever the
+\* client does; checks that judge HOW arguments are written read such a line without the limit (TokenizeAll)
+TokenizeN(line, max) == LET s == Eff(line) IN
    IF s = <<>> THEN [ok |-> FALSE, name |-> <<>>, args |-> <<>>, why |-> "No command given"]
    ELSE LET w == NextWord(s, 1) IN
         IF ~w.ok THEN [ok |-> FALSE, name |-> <<>>, args |-> <<>>, why |-> w.why]
-        ELSE LET p == Params(s, w.next, <<>>) IN [ok |-> p.ok, name |-> w.tok, args |-> p.args, why |-> p.why]
+        ELSE LET p == Params(s, w.next, <<>>, max) IN [ok |-> p.ok, name |-> w.tok, args |-> p.args, why |-> p.why]
+Tokenize(line) == TokenizeN(line, 15)
+TokenizeAll(line) == TokenizeN(line, 100000)
 =============================================================================
